@@ -139,8 +139,12 @@ def create_warning(
         msg_node = _create_warning_node(message_with_type, _source, _line)
     else:
         # docutils
+        # the setting is absent if the parser's settings were never registered,
+        # e.g. when used via the `parser` option of the rST include directive
         if _is_suppressed_warning(
-            type_str, subtype_str, document.settings.myst_suppress_warnings or []
+            type_str,
+            subtype_str,
+            getattr(document.settings, "myst_suppress_warnings", None) or [],
         ):
             return None
         kwargs = {}
